@@ -1,6 +1,6 @@
 (* C02 — leaf order and node/leaf classification follow the documented rules. *)
 From OptreeModel Require Import Base Tree Flatten Unflatten Spec.
-From OptreeProofs Require Import BaseProofs RoundTrip SortProofs EqProofs OrderOfLeaves.
+From OptreeProofs Require Import Sort2Proofs BaseProofs RoundTrip SortProofs EqProofs OrderOfLeaves.
 From Coq Require Import Permutation Sorted.
 
 (* the sort returns a permutation of the keys, always *)
@@ -43,6 +43,36 @@ Theorem C02_dict_insertion_order_irrelevant :
                r_ls r' = r_ls r /\ map core (r_ns r') = map core (r_ns r).
 Proof. exact dict_insertion_order_irrelevant. Qed.
 Print Assumptions C02_dict_insertion_order_irrelevant.
+
+(* stage 2 (keys of several types, not all mutually comparable, but comparable within each type):
+   sorted by (type name, key), independent of the insertion order *)
+Theorem C02_sort_stage2_sorted :
+  forall ks, stage1_ok ks = false -> stage2_ok ks = true -> NoDup ks ->
+  total_order_sort ks = isort key2_ltb ks /\
+  Sorted.StronglySorted (fun a b => key2_ltb a b = true) (isort key2_ltb ks).
+Proof. exact sort_stage2_sorted. Qed.
+Print Assumptions C02_sort_stage2_sorted.
+
+Theorem C02_sort_insertion_order_irrelevant :
+  forall ks ks', (stage1_ok ks = true \/ stage2_ok ks = true) -> NoDup ks -> Permutation ks ks' ->
+  total_order_sort ks = total_order_sort ks'.
+Proof. exact sort_perm_invariant. Qed.
+Print Assumptions C02_sort_insertion_order_irrelevant.
+
+(* so two dicts with the same items in different insertion orders flatten alike whenever their keys
+   can be sorted at all; when they cannot, the documented fallback is the insertion order itself *)
+Theorem C02_dict_insertion_order_irrelevant_any :
+  forall c fuel ks cs ks' cs' r,
+    ins_ordered c = false ->
+    apply_pred c (Node (HDict ks) cs) = false -> apply_pred c (Node (HDict ks') cs') = false ->
+    length ks = length cs -> length ks' = length cs' ->
+    Permutation (combine ks cs) (combine ks' cs') ->
+    NoDup ks -> (stage1_ok ks = true \/ stage2_ok ks = true) ->
+    flat c fuel (Node (HDict ks) cs) = Ok r ->
+    exists r', flat c fuel (Node (HDict ks') cs') = Ok r' /\
+               r_ls r' = r_ls r /\ map core (r_ns r') = map core (r_ns r).
+Proof. exact dict_insertion_order_irrelevant_any. Qed.
+Print Assumptions C02_dict_insertion_order_irrelevant_any.
 
 Theorem C02_pred_before_registry :
   forall c fuel o, apply_pred c o = true -> flat c (S fuel) o = Ok ([o], [leaf_node], false).
